@@ -12,6 +12,7 @@ CONSTANTS
   CfiLayouts = {"none"}
   Isa = "x64"
   WithScopes = FALSE
+  ExtraData = {TRUE, FALSE}
   Retargets = {FALSE}
   AlignOpts = {0}
   InsFns = {"none"}
